@@ -14,7 +14,7 @@ META = dict(
               "refs, git<->breezy URLs, parent location) with the inverse laws stated on the domain each pair defines; "
               "TLC proves the laws on the transcription over bounded grammars and exports the cases; the real Python "
               "and Rust functions are run both ways on every case and TLC judges the recorded results",
-    level_text="Exhaustive over bounded grammars that contain the escape characters: all strings up to 4 (6 in thorough) "
+    level_text="Exhaustive over bounded grammars that contain the escape characters: all strings up to 4 (5 in thorough) "
                "tokens over {_, space, form feed, s, c, a} for escaping, paths with non-UTF-8 bytes for file ids, names "
                "built from the ref prefixes, and URL records (every known git scheme and rsync style, user, port, path "
                "segments with ~ space , = %, branch | ref | neither incl. HEAD). Laws are TLC-checked on the "
@@ -231,7 +231,7 @@ def _chunk(sub, cases):
 def run(ctx):
     env.init()
     consts = ({"NEsc": 4, "NFid": 3, "NRef": 3, "NPath": 1, "Full": "FALSE"} if ctx.quick else
-              {"NEsc": 6, "NFid": 5, "NRef": 5, "NPath": 2, "Full": "TRUE"})
+              {"NEsc": 5, "NFid": 5, "NRef": 5, "NPath": 2, "Full": "TRUE"})
     cases = table.generate(ctx, "GitIdsGen", consts, invariants=("LawsHoldOnSpec", "CodedDeviatesExactly"),
                            witnesses=("WitnessUrlRef",))
     if not cases:
